@@ -302,6 +302,30 @@ Proof.
   eexists. split; [reflexivity|]. cbn [gd_mtime gd_header gd_filesz]. repeat split; reflexivity.
 Qed.
 
+(* multi-member  a.gz ++ b.gz : new takes the size from the LAST member's trailer and the mtime
+   from the FIRST member's header; the decoder (GzDecoder, not MultiGzDecoder) yields the first
+   member's data only *)
+Theorem gz_multi_member_new_thm : forall h1 d1 p1 h2 d2 p2,
+  gz_fields_ok h1 -> gz_within_flate2_limits h1 ->
+  let f := gz_member h1 d1 p1 ++ gz_member h2 d2 p2 in
+  blen f <= GZ_MAX_SZ ->
+  gz_new f = COk (mk_gzd (blen p2 mod TWO32) (gf_mtime h1) (crc32 p2 mod TWO32) (Some (hdr_of h1))
+                         (d1 ++ gz_trailer p1 ++ gz_member h2 d2 p2)).
+Proof.
+  intros h1 d1 p1 h2 d2 p2 Hok Hlim f Hsz. unfold gz_new.
+  assert (Hlen : 18 <= lenN f).
+  { unfold f, gz_member, lenN. rewrite !app_length, !trailer_len. pose proof (header_len_ge h1). lia. }
+  replace (lenN f <? 8) with false by (symmetry; apply N.ltb_ge; lia).
+  replace (GZ_MAX_SZ <? lenN f) with false by (symmetry; apply N.ltb_ge; exact Hsz).
+  assert (Hf : f = (gz_member h1 d1 p1 ++ gz_header_bytes h2 ++ d2) ++ gz_trailer p2).
+  { unfold f, gz_member. repeat rewrite <- app_assoc. reflexivity. }
+  destruct (gz_new_tail (gz_member h1 d1 p1 ++ gz_header_bytes h2 ++ d2) p2) as [Hc Hs]. cbv zeta in Hc, Hs.
+  rewrite <- Hf in Hc, Hs. rewrite Hc, Hs.
+  unfold f. unfold gz_member at 1. repeat rewrite <- app_assoc.
+  rewrite gz_parse_encode_thm by assumption.
+  rewrite N.mod_mod by (unfold TWO32; lia). reflexivity.
+Qed.
+
 (* ------------------------------------------------- the whole .gz reader on one well-formed member *)
 Section GzWhole.
   Variable dstate : Type.
@@ -328,30 +352,6 @@ Section GzWhole.
                bs _ _ plain Hbs Hrem).
     - destruct (N.to_nat i <? length (chunk bs plain))%nat; reflexivity.
     - unfold declared_size_ok, len, blen. unfold blen, TWO32 in H32. rewrite N.mod_small by (unfold TWO32; lia). reflexivity.
-  Qed.
-
-  (* multi-member  a.gz ++ b.gz : new takes the size from the LAST member's trailer and the mtime
-     from the FIRST member's header; the decoder (GzDecoder, not MultiGzDecoder) yields the first
-     member's data only *)
-  Theorem gz_multi_member_new_thm : forall h1 d1 p1 h2 d2 p2,
-    gz_fields_ok h1 -> gz_within_flate2_limits h1 ->
-    let f := gz_member h1 d1 p1 ++ gz_member h2 d2 p2 in
-    blen f <= GZ_MAX_SZ ->
-    gz_new f = COk (mk_gzd (blen p2 mod TWO32) (gf_mtime h1) (crc32 p2 mod TWO32) (Some (hdr_of h1))
-                           (d1 ++ gz_trailer p1 ++ gz_member h2 d2 p2)).
-  Proof.
-    intros h1 d1 p1 h2 d2 p2 Hok Hlim f Hsz. unfold gz_new.
-    assert (Hlen : 18 <= lenN f).
-    { unfold f, gz_member, lenN. rewrite !app_length, !trailer_len. pose proof (header_len_ge h1). lia. }
-    replace (lenN f <? 8) with false by (symmetry; apply N.ltb_ge; lia).
-    replace (GZ_MAX_SZ <? lenN f) with false by (symmetry; apply N.ltb_ge; exact Hsz).
-    assert (Hf : f = (gz_member h1 d1 p1 ++ gz_header_bytes h2 ++ d2) ++ gz_trailer p2).
-    { unfold f, gz_member. repeat rewrite <- app_assoc. reflexivity. }
-    destruct (gz_new_tail (gz_member h1 d1 p1 ++ gz_header_bytes h2 ++ d2) p2) as [Hc Hs]. cbv zeta in Hc, Hs.
-    rewrite <- Hf in Hc, Hs. rewrite Hc, Hs.
-    unfold f. unfold gz_member at 1. repeat rewrite <- app_assoc.
-    rewrite gz_parse_encode_thm by assumption.
-    rewrite N.mod_mod by (unfold TWO32; lia). reflexivity.
   Qed.
 
   (* what is then read: every block found is a block of the first member's data cut at the LAST
